@@ -156,3 +156,25 @@ Proof. split; [reflexivity|]. split; [left; reflexivity|]. split; [apply bounded
   split; [apply allocs_nonneg_b_sound; vm_compute; reflexivity|]. split.
   - intros n [<-|[]]. vm_compute. reflexivity.
   - eexists. vm_compute. reflexivity. Qed.
+
+(* the hypothesis [allocs_nonneg] of negative_only_forced is necessary: releasing a foreign allocation with a NEGATIVE
+   resource (the RM may report one: DESIGN finding "negative foreign resources") lowers available in a step that is
+   not a forced change *)
+Definition neg_state : ostate :=
+  mkOS [mkON 1%N [(1%N, 10)] [(1%N, -5)] [(1%N, 12)] [(1%N, 3)] true [ex_alloc 11%N [(1%N, 12)] false] [ex_alloc 21%N [(1%N, -5)] true] []]
+       [] [] None 1 0 0 [ex_alloc 21%N [(1%N, -5)] true] [] [] [].
+Theorem negative_only_forced_without_nonneg_refuted :
+  exists s st s', m_step [] s st = Some s' /\ SInv s /\ Bounded s /\ forced_node_change (st_op st) = false /\
+                  no_negative s /\ ~ no_negative s'.
+Proof. exists neg_state, (ex_step (OpRelease 0%N 21%N 0%N) []). eexists. split; [vm_compute; reflexivity|].
+  split; [apply sinv_b_sound; vm_compute; reflexivity|]. split; [apply bounded_b_sound; vm_compute; reflexivity|].
+  split; [reflexivity|]. split.
+  - intros n [<-|[]]. vm_compute. reflexivity.
+  - intros C. specialize (C _ (or_introl eq_refl)). vm_compute in C. discriminate. Qed.
+
+(* the freshness hypothesis of n_add_ledger / [bind_key_fresh] is necessary: the node's allocation map is keyed by the
+   allocation key alone, a second allocation under a listed key replaces the entry while allocated is increased *)
+Theorem n_add_existing_key_refuted :
+  exists n x n', node_ledger_ok n = true /\ n_add n x false = Some n' /\ node_ledger_ok n' = false.
+Proof. exists ex_node, (ex_alloc 11%N [(1%N, 1)] false). eexists. split; [vm_compute; reflexivity|].
+  split; vm_compute; reflexivity. Qed.
